@@ -27,7 +27,6 @@ package c04
 
 import (
 	"fmt"
-	"strings"
 
 	"verifkit/prng"
 )
@@ -56,6 +55,10 @@ func (r *rejectSpec) String() string {
 // replTable is the content of one replace_rcpt / replace_sender static table.
 type replTable struct {
 	sender bool
+	// named: written as a top-level table block (`table.chain <name> { step static { ... } }`) that the
+	// modifier references with `replace_rcpt &<name>`; a table object used by several scopes is then one
+	// shared configuration block. Spelling only - the content is the same.
+	named bool
 	// keys by full address class or by local class
 	full  map[addr][]replVal
 	local map[int][]replVal
@@ -79,7 +82,90 @@ type replVal struct {
 }
 
 type mods struct {
-	tables []*replTable // applied in order (at most one rcpt and one sender table per scope)
+	tables []*replTable // written inline in the scope (`modify { ... }`), applied in order
+	// group: a top-level `modifiers <name> { ... }` block referenced with `modify &<name>`; the group
+	// object is shared by every scope that references it. Its tables are applied before the inline ones
+	// (the reference is written first) unless groupLast.
+	group     *modGroup
+	groupLast bool
+}
+
+// modGroup is a named top-level modifiers block. Members are the real tables plus no-op members
+// (rewrite tables whose only key is an address outside the alphabet), 1-7 in total.
+type modGroup struct {
+	tables []*replTable
+	layout []int // members as written: index into tables, or -1 for a no-op member
+}
+
+func (g *modGroup) pads() int {
+	n := 0
+	for _, x := range g.layout {
+		if x < 0 {
+			n++
+		}
+	}
+	return n
+}
+
+// effective lists the tables of the scope in the order the documentation applies them: modifiers
+// of a scope run in the order they are written, a referenced group stands for its members.
+func (m *mods) effective() []*replTable {
+	if m == nil {
+		return nil
+	}
+	if m.group == nil {
+		return m.tables
+	}
+	var out []*replTable
+	if m.groupLast {
+		out = append(out, m.tables...)
+		return append(out, m.group.tables...)
+	}
+	out = append(out, m.group.tables...)
+	return append(out, m.tables...)
+}
+
+func (t *replTable) matches(x addr) bool {
+	if x.null {
+		return false
+	}
+	return len(t.full[x]) > 0 || len(t.local[x.l]) > 0
+}
+
+// interfere: the later table l could see an address differently depending on how two rewrite modules
+// of one kind in one scope are combined (piped, or both looking at the original). Scopes with several
+// tables of one kind are only generated when no address of the alphabet is touched by both, so that
+// every reading of the documentation gives the same result.
+func interfere(e, l *replTable, all []addr) bool {
+	for _, x := range all {
+		if !e.matches(x) {
+			continue
+		}
+		if l.matches(x) {
+			return true
+		}
+		for _, y := range e.apply(x) {
+			if l.matches(y) {
+				return true
+			}
+		}
+	}
+	return false
+}
+
+func (m *mods) unambiguous(all []addr) bool {
+	eff := m.effective()
+	for i := range eff {
+		for j := i + 1; j < len(eff); j++ {
+			if eff[i].sender != eff[j].sender {
+				continue
+			}
+			if eff[i] == eff[j] || interfere(eff[i], eff[j], all) || interfere(eff[j], eff[i], all) {
+				return false
+			}
+		}
+	}
+	return true
 }
 
 type target struct {
@@ -93,7 +179,15 @@ type rcptBlock struct {
 	reject  *rejectSpec
 	targets []target
 	hasChk  bool // decoration: a check block referencing a pass-through scripted check
-	// order in which directives are written (indexes into a virtual list) is chosen at render time
+	st      style
+}
+
+// style holds spelling decisions that carry no documented meaning: where the modify/check directives
+// stand among the other directives of the block and how the check is referenced.
+type style struct {
+	order    int // 0: by block id parity (before / after everything else), 1 before, 2 after, 3 in the middle, 4 modify directives spread
+	pos      int // where "the middle" is
+	chkStyle int // 0 inline `check { }`, 1 `check &group`, 2 `check &group` + inline, 3 inline + `check &group`
 }
 
 type ruleSpelling struct {
@@ -113,14 +207,18 @@ type item struct {
 	table int    // index into case tables ("in")
 	keys  map[addr]bool
 	rules []matchRule
-	src   *srcBlock  // for pipe items
-	rcpt  *rcptBlock // for srcBlock items
+	blk   bool           // spelling ("in"): the table is a top-level table block instead of a scripted table
+	split bool           // spelling: one directive per rule (same body repeated) instead of `destination a b c { }`
+	extra []ruleSpelling // spelling: further spellings of rules of this directive, appended to its rule list
+	src   *srcBlock      // for pipe items
+	rcpt  *rcptBlock     // for srcBlock items
 }
 
 type srcBlock struct {
 	id       int
 	mods     *mods
 	hasChk   bool
+	st       style
 	items    []item     // destination_in / destination / default_destination in declaration order
 	implicit *rcptBlock // when there are no destination rules
 }
@@ -129,6 +227,8 @@ type pipe struct {
 	depth    int
 	mods     *mods
 	hasChk   bool
+	st       style
+	named    bool      // spelling (nested pipelines): top-level `msgpipeline <name> { }` + `deliver_to &<name>` instead of `reroute { }`
 	items    []item    // source_in / source / default_source in declaration order
 	implicit *srcBlock // when there are no source rules
 }
@@ -237,7 +337,7 @@ func (m *mods) rewriteSender(x addr) addr {
 	if m == nil {
 		return x
 	}
-	for _, t := range m.tables {
+	for _, t := range m.effective() {
 		if t.sender {
 			x = t.apply(x)[0]
 		}
@@ -249,7 +349,7 @@ func (m *mods) rewriteRcpt(xs []addr) []addr {
 	if m == nil {
 		return xs
 	}
-	for _, t := range m.tables {
+	for _, t := range m.effective() {
 		if t.sender {
 			continue
 		}
@@ -628,168 +728,4 @@ func (g *gen) newPipe(depth int) *pipe {
 		p.items = append(p.items[:pos], append([]item{def}, p.items[pos:]...)...)
 	}
 	return p
-}
-
-// ---------- renderer ----------
-
-func q(s string) string {
-	s = strings.ReplaceAll(s, `\`, `\\`)
-	s = strings.ReplaceAll(s, `"`, `\"`)
-	return `"` + s + `"`
-}
-
-type renderer struct {
-	g       *gen
-	sb      strings.Builder
-	tgtName func(i int) string
-	tblName func(i int) string
-	chkLine string
-	nmods     int // modify scopes rendered so far
-	splitMods int // of those, written as one `modify` directive per table
-}
-
-func (r *renderer) line(ind int, format string, a ...any) {
-	r.sb.WriteString(strings.Repeat("    ", ind))
-	fmt.Fprintf(&r.sb, format, a...)
-	r.sb.WriteByte('\n')
-}
-
-func (r *renderer) mods(ind int, m *mods) {
-	if m == nil {
-		return
-	}
-	// Several `modify` directives in one scope are concatenated in order (docs: "modify blocks"),
-	// so a scope with two tables is written alternately as one block and as one block per table.
-	r.nmods++
-	split := len(m.tables) >= 2 && r.nmods%2 == 1
-	if split {
-		r.splitMods++
-	}
-	if !split {
-		r.line(ind, "modify {")
-	}
-	for _, t := range m.tables {
-		if split {
-			r.line(ind, "modify {")
-		}
-		name := "replace_rcpt"
-		if t.sender {
-			name = "replace_sender"
-		}
-		r.line(ind+1, "%s static {", name)
-		for _, k := range t.order {
-			var key string
-			var vs []replVal
-			if k.isLocal {
-				key = r.g.al.locals[k.l].canon
-				vs = t.local[k.l]
-			} else {
-				key = r.g.al.canon(k.a)
-				vs = t.full[k.a]
-			}
-			parts := []string{"entry", q(key)}
-			for _, v := range vs {
-				parts = append(parts, q(v.text))
-			}
-			r.line(ind+2, "%s", strings.Join(parts, " "))
-		}
-		r.line(ind+1, "}")
-		if split {
-			r.line(ind, "}")
-		}
-	}
-	if !split {
-		r.line(ind, "}")
-	}
-}
-
-func (r *renderer) chk(ind int, has bool) {
-	if has {
-		r.line(ind, "check {")
-		r.line(ind+1, "%s", r.chkLine)
-		r.line(ind, "}")
-	}
-}
-
-func (r *renderer) rcptBody(ind int, b *rcptBlock) {
-	// modify/check first or last, decided by the block id parity (order of directives inside a
-	// block carries no documented meaning)
-	pre := b.id%2 == 0
-	if pre {
-		r.mods(ind, b.mods)
-		r.chk(ind, b.hasChk)
-	}
-	if b.reject != nil {
-		r.line(ind, "%s", b.reject.String())
-	}
-	for _, t := range b.targets {
-		if t.reroute != nil {
-			r.line(ind, "reroute {")
-			r.pipe(ind+1, t.reroute)
-			r.line(ind, "}")
-		} else {
-			r.line(ind, "deliver_to &%s", r.tgtName(t.script))
-		}
-	}
-	if !pre {
-		r.chk(ind, b.hasChk)
-		r.mods(ind, b.mods)
-	}
-}
-
-func rulesText(rs []matchRule) string {
-	parts := make([]string, len(rs))
-	for i, ru := range rs {
-		parts[i] = q(ru.sp.text)
-	}
-	return strings.Join(parts, " ")
-}
-
-func (r *renderer) srcBody(ind int, s *srcBlock) {
-	pre := s.id%2 == 0
-	if pre {
-		r.mods(ind, s.mods)
-		r.chk(ind, s.hasChk)
-	}
-	if s.implicit != nil {
-		r.rcptBody(ind, s.implicit)
-	} else {
-		for _, it := range s.items {
-			switch it.kind {
-			case "in":
-				r.line(ind, "destination_in &%s {", r.tblName(it.table))
-			case "rule":
-				r.line(ind, "destination %s {", rulesText(it.rules))
-			default:
-				r.line(ind, "default_destination {")
-			}
-			r.rcptBody(ind+1, it.rcpt)
-			r.line(ind, "}")
-		}
-	}
-	if !pre {
-		r.chk(ind, s.hasChk)
-		r.mods(ind, s.mods)
-	}
-}
-
-func (r *renderer) pipe(ind int, p *pipe) {
-	r.mods(ind, p.mods)
-	r.chk(ind, p.hasChk)
-	if p.implicit != nil {
-		r.srcBody(ind, p.implicit)
-		return
-	}
-	for _, it := range p.items {
-		switch it.kind {
-		case "in":
-			r.line(ind, "source_in &%s {", r.tblName(it.table))
-		case "rule":
-			r.line(ind, "source %s {", rulesText(it.rules))
-		default:
-			r.line(ind, "default_source {")
-		}
-		r.srcBody(ind+1, it.src)
-		r.line(ind, "}")
-	}
 }
